@@ -214,6 +214,7 @@ fn grid3<T: Tier + Dom<M = Sh>>(rep: &mut Report) {
     for (nm, sc) in [("grid3/long", (k, k)), ("grid3/short", (-k, -k)), ("grid3/long-dir-short-up", (k, -k)), ("grid3/short-dir-long-up", (-k, k))] {
         grid3_at::<T>(rep, nm, 1, sc);
     }
+    near_axis3::<T>(rep);
 }
 fn grid3_at<T: Tier + Dom<M = Sh>>(rep: &mut Report, name: &str, r: i64, sc: (i32, i32)) {
     let side = (2 * r + 1) as usize;
@@ -248,6 +249,42 @@ fn grid3_at<T: Tier + Dom<M = Sh>>(rep: &mut Report, name: &str, r: i64, sc: (i3
             let sd = model::vnormalize(model::cross(mu, f));
             let u2 = model::cross(f, sd);
             let want: [[Sh; 3]; 3] = std::array::from_fn(|c| [sd[c], u2[c], f[c]]);
+            judge3::<T>(ctx, eye, dir, up, want, 8.0, 1.0);
+        },
+    );
+}
+
+/// float tiers: viewing directions next to a coordinate axis (either sense) with rolled up vectors - the shape a
+/// "looking along z already" short cut would test for, exactly and off by less than epsilon, 2^-30, 2^-22
+fn near_axis3<T: Tier + Dom<M = Sh>>(rep: &mut Report) {
+    let ds = [0.0, T::U / 64.0, 2f64.powi(-30), 2f64.powi(-22)];
+    let ups: [[f64; 3]; 4] = [[1.0, 1.0, 0.5], [3.0, 4.0, 1.0], [-2.0, 0.5, 1.5], [0.25, -1.0, -3.0]];
+    let dims = [3usize, 2, ds.len(), ups.len(), 2];
+    rep.cases(
+        "grid3/near-axis",
+        T::NAME,
+        "dir = +-e_k (k = x, y, z; lengths 1 and 3) moved sideways by {0, u/64, 2^-30, 2^-22} x 4 rolled up vectors x 2 eyes",
+        alphabet::product_len(&dims) * 2,
+        Guard::states(100).distinct(50),
+        |i, ctx| {
+            let n1 = alphabet::product_len(&dims);
+            let d = alphabet::decode(i % n1, &dims);
+            let c = |x: f64| num_traits::cast::<f64, T>(x).unwrap();
+            let (k, sg, dd, len) = (d[0], if d[1] == 0 { 1.0 } else { -1.0 }, ds[d[2]], if d[4] == 0 { 1.0 } else { 3.0 });
+            let mut df = [0.0f64; 3];
+            df[k] = sg * len;
+            df[(k + 1) % 3] = dd * len;
+            df[(k + 2) % 3] = -dd * len / 2.0;
+            let dir: [T; 3] = df.map(c);
+            let up: [T; 3] = ups[d[3]].map(c);
+            let eye: [T; 3] = vec_from_r::<T, 3>(&alphabet::generic(3, i / n1));
+            ctx.describe(|| format!("eye={:?} dir={:?} up={:?}", eye, dir, up));
+            ctx.out(&(d.clone(), i / n1));
+            let (md, mu): ([Sh; 3], [Sh; 3]) = (lift_v(dir), lift_v(up));
+            let f = model::vnormalize(md);
+            let sd = model::vnormalize(model::cross(mu, f));
+            let u2 = model::cross(f, sd);
+            let want: [[Sh; 3]; 3] = std::array::from_fn(|cc| [sd[cc], u2[cc], f[cc]]);
             judge3::<T>(ctx, eye, dir, up, want, 8.0, 1.0);
         },
     );
